@@ -18,11 +18,12 @@ Implementation: Template method pattern for Python linter boilerplate
 """
 
 from abc import abstractmethod
+from pathlib import Path
 from typing import Any, Generic
 
 from .base import BaseLintContext, BaseLintRule
 from .constants import Language
-from .linter_utils import ConfigType, has_file_content, load_linter_config
+from .linter_utils import ConfigType, has_file_content, is_ignored_path, load_linter_config
 from .types import Violation
 
 
@@ -80,7 +81,7 @@ class PythonOnlyLintRule(BaseLintRule, Generic[ConfigType]):
             return []
 
         config = self._get_config(context)
-        if not self._is_enabled(config):
+        if not self._is_enabled(config) or self._is_file_ignored(context, config):
             return []
 
         file_path = str(context.file_path) if context.file_path else "unknown"
@@ -95,6 +96,13 @@ class PythonOnlyLintRule(BaseLintRule, Generic[ConfigType]):
         if self._config_override is not None:
             return self._config_override
         return load_linter_config(context, self._config_key, self._config_class)
+
+    def _is_file_ignored(self, context: BaseLintContext, config: Any) -> bool:
+        """Check the file against the configuration's `ignore` patterns, when it has any."""
+        patterns = getattr(config, "ignore", None)
+        if not patterns or context.file_path is None:
+            return False
+        return is_ignored_path(Path(context.file_path).as_posix(), [str(p) for p in patterns])
 
     def _is_enabled(self, config: Any) -> bool:
         """Check if linter is enabled in config."""
